@@ -381,3 +381,25 @@ Definition infix_form_gen (expand : bool) (efuel fuel : nat) (args : list argk) 
 
 Definition argk_size (a : argk) : nat :=
   match a with AArray c | APairArray c => psize_list c | _ => O end.
+
+(* weight of a token: a symbol with colonTail counts twice (splitColonTailSelectorSymbols makes two tokens
+   of it), an array counts its content *)
+Fixpoint pw (p : ptok) : nat :=
+  match p with
+  | PT (TSym _ true) => 2%nat
+  | PArr l => S (fold_right (fun x a => (pw x + a)%nat) O l)
+  | _ => 1%nat
+  end.
+Definition pws (l : list ptok) : nat := fold_right (fun x a => (pw x + a)%nat) O l.
+
+
+(* the fuel is linear in the weight: 5 * weight + 1 for a statement, weight + 1 statements
+   (Proofs/PrattFuelProofs.v: enough for every token list) *)
+Definition expand_auto (ts : list ptok) : pres nat :=
+  expand_gen (5 * pws ts + 1)%nat (S (pws ts)) ts.
+
+Definition argk_weight (a : argk) : nat :=
+  match a with AArray c | APairArray c => pws c | _ => O end.
+Definition infix_form_auto (expand : bool) (args : list argk) : pres nat :=
+  let w := fold_right (fun a acc => (argk_weight a + acc)%nat) O args in
+  infix_form_gen expand (5 * w + 1)%nat (S w) args.
